@@ -164,6 +164,51 @@ func VerifC01InsiderRetry(gt int, mid int) {
 	}
 }
 
+// VerifC01InsiderPush: before presenting the forged entry the insider makes the receiver open a push payload (below).
+// Whatever that leaves behind, an entry delivered afterwards as the honest device's still carries content the device signed.
+func VerifC01InsiderPush(gt int) {
+	ctx := verif_background()
+	snd := verifNewStore("snd", 2)
+	rcv := verifNewStore("rcv", 2)
+	g := verifGroup(snd, rcv, gt)
+	gpk, err := g.GetPubKey()
+	verif_assume(err == nil)
+	verif_assume(rcv.PutGroup(ctx, g) == nil)
+	sndMD, rcvMD := verifLink(ctx, snd, rcv, g)
+	devRaw, _ := sndMD.Device().Raw()
+	p1 := verif_anyBytesNonNil("p1")
+	pay1, _ := proto.Marshal(&protocoltypes.EncryptedMessage{Plaintext: p1})
+	env1, err := snd.SealEnvelope(ctx, g, pay1) // counter 1
+	verif_assume(err == nil)
+	verif_honestKey(sndMD.device)
+
+	// the insider relays the device's GENUINE envelope as a push payload, with an entry identifier of its own choosing
+	// (the identifier inside a push payload is not authenticated)
+	e1, h1, err := rcv.OpenEnvelopeHeaders(env1, g)
+	verif_assume(err == nil)
+	c := verif_anyCid("cid")
+	oos, err := snd.SealOutOfStoreMessageEnvelope(c, e1, h1, g)
+	verif_assume(err == nil)
+	push, err := proto.Marshal(oos)
+	verif_assume(err == nil)
+	if _, _, _, _, perr := rcv.OpenOutOfStoreMessage(ctx, push); perr == nil {
+		verif_reach("C01.push.accepted")
+	}
+	data := verif_anyBytesNonNil("adversarial-envelope")
+	e, h, err := rcv.OpenEnvelopeHeaders(data, g)
+	if err != nil {
+		return
+	}
+	msg, err := rcv.OpenEnvelopePayload(ctx, e, h, gpk, rcvMD.Device(), c)
+	if err != nil {
+		return
+	}
+	verif_reach("C01.insiderpush.accepted")
+	if verif_bytesEq(h.DevicePk, devRaw) {
+		verif_assert(verif_bytesEq(msg.Plaintext, p1), "C01.A1p: content delivered as the device's after an adversarial push is one the device signed")
+	}
+}
+
 // VerifC01Outsider: without the group secret / message keys (INT-CTXT for both), whatever is accepted is
 // bit-for-bit an honest envelope: every flip and every field substitution is rejected.
 func VerifC01Outsider(gt int) {
